@@ -18,6 +18,7 @@ static trompeloeil::reporter_func make_reporter(int gen) {
     bool fatal = s == trompeloeil::severity::fatal;
     if (g_world) g_world->raw.push_back({fatal, file ? file : "", line, msg, gen, g_world->depth});
     if (fatal) throw Fatal{};
+    if (g_world && std::string(file ? file : "") != "probe") g_world->fire_armed();  // user code in the reporter (OP_ARM_REPORTER)
   };
 }
 static trompeloeil::ok_reporter_func make_ok_reporter(int gen) {
@@ -162,7 +163,7 @@ Outcome World::apply(const Op& op) {
         eused[op.slot] = true;
         break;
       }
-      case OP_RELEASE: e[op.slot].reset(); break;
+      case OP_RELEASE: sort_reports = armed != 0; e[op.slot].reset(); break;
       case OP_CALL: {
         callobj = op.obj;
         try {
@@ -190,7 +191,7 @@ Outcome World::apply(const Op& op) {
       }
       case OP_DESTROY_MOCK: sort_reports = true; if (op.obj < 2) m[op.obj].reset(); else mv[op.obj - 2].reset(); break;
       case OP_MOVE_MOCK: mv[op.k1 - 2].reset(new MV(std::move(*mv[op.obj - 2]))); break;
-      case OP_DESTROY_SEQ: seq[op.s1].reset(); break;
+      case OP_DESTROY_SEQ: sort_reports = armed != 0; seq[op.s1].reset(); break;
       case OP_MOVE_SEQ: seq[op.s1].reset(new trompeloeil::sequence(std::move(*seq[op.s1]))); break;
       case OP_NEW_WATCHED: w[op.obj].reset(new WObj); break;
       case OP_DELETE_WATCHED: sort_reports = true; w[op.obj].reset(); break;
@@ -205,6 +206,7 @@ Outcome World::apply(const Op& op) {
         ++ntracer; break;
       case OP_POP_TRACER: --ntracer; rec[ntracer].reset(); box[ntracer].reset(); break;
       case OP_SET_REPORTER: install_reporter(op.k1, op.k2 != 0, &o.misc); break;
+      case OP_ARM_REPORTER: armed = 1 + op.obj; break;
     }
   } catch (Fatal&) {
     o.kind = OK_OTHER; o.harness_error = "fatal report outside a mock call";
